@@ -101,6 +101,8 @@ def tree_case(rng: random.Random, n: int, shape: str, numbering: str = "sorted",
     r = [rr() for _ in range(n)]
     if types == "mixed":
         ty = [1] + [rng.choice([2, 3, 4, 0, 5, 7]) for _ in range(n - 1)]
+    elif types == "anyroot":      # the root need not be typed as soma (neurite fragments, files without a type column)
+        ty = [rng.choice([3, 2, 0, 1, 4])] + [rng.choice([2, 3, 4, 0, 5, 7]) for _ in range(n - 1)]
     elif types == "soma3":
         ty = [1] + [3] * (n - 1)
     else:
